@@ -74,7 +74,15 @@ RichDomains == [
     ciphertext |-> <<80,97,105,108,108,105,101,114,32,67,105,112,104,101,114,116,101,120,116>>,        \* "Paillier Ciphertext"
     exponent   |-> <<69,120,112,111,110,101,110,116>>,                                                 \* "Exponent"
     commitment |-> <<67,111,109,109,105,116,109,101,110,116>>,                                         \* "Commitment"
-    decommitment |-> <<68,101,99,111,109,109,105,116,109,101,110,116>> ]                               \* "Decommitment"
+    decommitment |-> <<68,101,99,111,109,109,105,116,109,101,110,116>>,                                \* "Decommitment"
+    \* composite writers: several components written one after the other under one tag
+    elgamal    |-> <<69,108,71,97,109,97,108,32,67,105,112,104,101,114,116,101,120,116>>,   \* "ElGamal Ciphertext"
+    schcommit  |-> <<83,99,104,110,111,114,114,32,67,111,109,109,105,116,109,101,110,116>>,   \* "Schnorr Commitment"
+    paillierpk |-> <<80,97,105,108,108,105,101,114,32,80,117,98,108,105,99,75,101,121>>,   \* "Paillier PublicKey"
+    pedersen   |-> <<80,101,100,101,114,115,101,110,32,80,97,114,97,109,101,116,101,114,115>>,   \* "Pedersen Parameters"
+    sigmsg     |-> <<83,105,103,110,97,116,117,114,101,32,77,101,115,115,97,103,101>>,   \* "Signature Message"
+    sigmsgnil  |-> <<69,109,112,116,121,32,77,101,115,115,97,103,101>>,   \* "Empty Message"
+    cmppublic  |-> <<80,117,98,108,105,99,32,68,97,116,97>> ]   \* "Public Data"
 
 ASSUME Variant \in {"full", "nolen", "datalen", "domlen", "nodomain"}
 ASSUME \A a, b \in DOMAIN RichDomains : a # b => RichDomains[a] # RichDomains[b]   \* per-type tags are distinct
